@@ -13,6 +13,15 @@ Lemma lr_update_rejected st stds mean vals vecs mu :
   lr_gate stds mean vals vecs = false -> lr_update st stds mean vals vecs mu = st.
 Proof. intros H. unfold lr_update. rewrite H. reflexivity. Qed.
 
+Lemma lr_gate_true_parts stds mean vals vecs :
+  lr_gate stds mean vals vecs = true ->
+  all_finite stds = true /\ all_finite mean = true /\ all_finite vals = true /\
+  forallb all_finite vecs = true /\ forallb lr_scale_ok stds = true /\ forallb lr_val_ok vals = true.
+Proof.
+  unfold lr_gate, lr_gate_finite. intros H.
+  repeat (apply andb_true_iff in H; destruct H as [H ?]). repeat split; assumption.
+Qed.
+
 Lemma all_finite_false_in l x : In x l -> is_finite x = false -> all_finite l = false.
 Proof.
   intros Hin Hx. unfold all_finite. apply not_true_is_false. intros H.
@@ -25,15 +34,26 @@ Theorem lr_nonfinite_entry_keeps_previous st stds mean vals vecs mu x :
   (In x stds \/ In x mean \/ In x vals \/ exists col, In col vecs /\ In x col) ->
   lr_update st stds mean vals vecs mu = st.
 Proof.
-  intros Hx Hin. apply lr_update_rejected. unfold lr_gate.
+  intros Hx Hin. apply lr_update_rejected. apply not_true_is_false. intros Hg.
+  apply lr_gate_true_parts in Hg. destruct Hg as (H1 & H2 & H3 & H4 & _).
   destruct Hin as [H | [H | [H | [col [Hc H]]]]].
-  - rewrite (all_finite_false_in _ _ H Hx). reflexivity.
-  - rewrite (all_finite_false_in _ _ H Hx). rewrite andb_false_r. reflexivity.
-  - rewrite (all_finite_false_in _ _ H Hx). rewrite andb_false_r. reflexivity.
-  - assert (Hv : forallb all_finite vecs = false).
-    { apply not_true_is_false. intros Hf. rewrite forallb_forall in Hf.
-      specialize (Hf col Hc). rewrite (all_finite_false_in _ _ H Hx) in Hf. discriminate. }
-    rewrite Hv. rewrite andb_false_r. reflexivity.
+  - rewrite (all_finite_false_in _ _ H Hx) in H1. discriminate.
+  - rewrite (all_finite_false_in _ _ H Hx) in H2. discriminate.
+  - rewrite (all_finite_false_in _ _ H Hx) in H3. discriminate.
+  - rewrite forallb_forall in H4. specialize (H4 col Hc).
+    rewrite (all_finite_false_in _ _ H Hx) in H4. discriminate.
+Qed.
+
+(* a scale that is not strictly positive (or whose reciprocal overflows), or an eigenvalue that is
+   not strictly positive, is an invalid estimate as well *)
+Theorem lr_nonpositive_keeps_previous st stds mean vals vecs mu x :
+  (In x stds /\ lr_scale_ok x = false) \/ (In x vals /\ lr_val_ok x = false) ->
+  lr_update st stds mean vals vecs mu = st.
+Proof.
+  intros Hin. apply lr_update_rejected. apply not_true_is_false. intros Hg.
+  apply lr_gate_true_parts in Hg. destruct Hg as (_ & _ & _ & _ & H5 & H6).
+  rewrite forallb_forall in H5, H6.
+  destruct Hin as [[Hi Hb] | [Hi Hb]]; [specialize (H5 x Hi) | specialize (H6 x Hi)]; congruence.
 Qed.
 
 Theorem lr_update_installs st stds mean vals vecs mu :
@@ -60,38 +80,18 @@ Proof. intros H. unfold lr_adapt. apply N.ltb_lt in H. rewrite H. reflexivity. Q
 Theorem lr_adapt_none st count : lr_adapt st count None = st.
 Proof. unfold lr_adapt. destruct (count <? 3)%N; reflexivity. Qed.
 
-(* ---------------------------------------------------------------------------------------- *)
-(* scales in use after an accepted update                                                    *)
-(* ---------------------------------------------------------------------------------------- *)
-Lemma Forall_map_good {f : f64 -> f64} (Hf : forall x, good x -> good (f x)) l :
-  Forall good l -> Forall finpos (map f l).
-Proof.
-  induction 1 as [|x l Hx _ IH]; simpl; constructor; auto. apply good_finpos, Hf, Hx.
-Qed.
-
-Theorem lr_update_scales_ok st stds mean vals vecs mu :
-  lr_gate stds mean vals vecs = true -> Forall good stds -> Forall good vals ->
-  let st' := lr_update st stds mean vals vecs mu in
-  Forall finpos (lr_stds st') /\ Forall finpos (lr_inv st') /\
-  match lr_inner st' with
-  | Some (vs, vsi, _) => Forall finpos vs /\ Forall finpos vsi
-  | None => False
-  end.
-Proof.
-  intros Hg Hs Hv. unfold lr_update. rewrite Hg. simpl. repeat split.
-  - eapply Forall_impl; [|exact Hs]. intros a Ha. apply good_finpos, Ha.
-  - apply Forall_map_good; [exact frecip_good | exact Hs].
-  - apply Forall_map_good; [exact fsqrt_good | exact Hv].
-  - apply (Forall_map_good (f := fun v => frecip (fsqrt v))); [|exact Hv].
-    intros x Hx. apply frecip_good, fsqrt_good, Hx.
-Qed.
-
-(* the gate alone is NOT enough: a zero scale is finite, passes, and its reciprocal is infinite *)
-Theorem lr_gate_admits_zero_scale :
+(* before the repair the gate only looked at finiteness: a zero eigenvalue (what the SPD-mean
+   pipeline returns for some singular windows with a small gamma) or a zero scale passed, and the
+   transformation in use had an infinite inverse scale *)
+Theorem lr_prefix_gate_admits_zero :
   let st := {| lr_stds := [fone]; lr_inv := [fone]; lr_mean := [fzero]; lr_inner := None; lr_id := 0 |} in
-  let st' := lr_update st [fzero] [fzero] [] [] [fzero] in
-  lr_id st' = 1%Z /\ map is_finite (lr_inv st') = [false].
-Proof. vm_compute. split; reflexivity. Qed.
+  let a := lr_update_prefix st [fone] [fzero] [fzero] [[fone]] [fzero] in
+  let b := lr_update_prefix st [fzero] [fzero] [] [] [fzero] in
+  (lr_id a = 1%Z /\ match lr_inner a with Some (_, vsi, _) => map is_finite vsi = [false] | None => False end) /\
+  (lr_id b = 1%Z /\ map is_finite (lr_inv b) = [false]) /\
+  lr_update st [fone] [fzero] [fzero] [[fone]] [fzero] = st /\
+  lr_update st [fzero] [fzero] [] [] [fzero] = st.
+Proof. vm_compute. repeat split; reflexivity. Qed.
 
 (* ---------------------------------------------------------------------------------------- *)
 (* ... which is why rescale_points matters: a scale that is zero, infinite or NaN makes the   *)
@@ -215,4 +215,105 @@ Theorem lr_sigma_good_or_poison dv gv :
 Proof.
   intros s. destruct (lr_sigma_cases dv gv) as [G|B]; [left; exact G|right].
   apply lr_bad_sigma_poisons_row. exact B.
+Qed.
+
+(* ---------------------------------------------------------------------------------------- *)
+(* scales in use after an accepted update: finite and strictly positive for EVERY input      *)
+(* ---------------------------------------------------------------------------------------- *)
+Lemma frecip_finpos x : finpos x -> Fp.is_finite (frecip x) = true -> finpos (frecip x).
+Proof.
+  intros H Hfin. apply finpos_iff in H. destruct H as [Hf Hp].
+  assert (Hs : is_finite_strict 53 1024 x = true).
+  { destruct x as [s|s|s pl Hpl|s m e He]; try discriminate; auto; try (exfalso; simpl in Hp; lra). }
+  pose proof (abs_B2R_ge_emin 53 1024 x Hs) as HL.
+  pose proof (abs_B2R_lt_emax 53 1024 x) as HU.
+  rewrite Rabs_pos_eq in HL, HU by lra.
+  assert (HL' : bpow radix2 (-1074) <= R64 x) by exact HL.
+  assert (Hnz : R64 x <> 0) by lra.
+  pose proof (Bdiv_correct 53 1024 eq_refl eq_refl binop_nan_pl64 BinarySingleNaN.mode_NE fone x Hnz) as H.
+  rewrite R64_fone in H.
+  destruct (Rlt_bool (Rabs (rnd64 (1 / R64 x))) (bpow radix2 1024)).
+  - destruct H as (HR & _). apply finpos_iff. split; [exact Hfin|].
+    unfold frecip, fdiv, b64_div. rewrite HR.
+    assert (B : bpow radix2 (-1024) <= 1 / R64 x <= bpow radix2 1074).
+    { unfold Rdiv. rewrite Rmult_1_l. split.
+      - rewrite (bpow_opp radix2 1024 : bpow radix2 (-1024) = / bpow radix2 1024).
+        apply Rinv_le_contravar; lra.
+      - rewrite (bpow_opp radix2 (-1074) : bpow radix2 1074 = / bpow radix2 (-1074)).
+        apply Rinv_le_contravar; [apply bpow_gt_0 | exact HL']. }
+    pose proof (rnd_bounds (-1024) 1074 _ ltac:(lia) ltac:(lia) B) as [R1 _].
+    pose proof (bpow_gt_0 radix2 (-1024)). lra.
+  - exfalso. unfold frecip, fdiv, b64_div in Hfin.
+    replace (binary_overflow 53 1024 BinarySingleNaN.mode_NE (xorb (Bsign 53 1024 fone) (Bsign 53 1024 x)))
+      with (F754_infinity (xorb (Bsign 53 1024 fone) (Bsign 53 1024 x))) in H
+      by (destruct (xorb (Bsign 53 1024 fone) (Bsign 53 1024 x)); reflexivity).
+    destruct (Bdiv 53 1024 eq_refl eq_refl binop_nan_pl64 BinarySingleNaN.mode_NE fone x); simpl in H; discriminate.
+Qed.
+
+Lemma fgt_zero_finite_finpos x : Fp.is_finite x = true -> fgt x fzero = true -> finpos x.
+Proof. intros Hf Hg. split; [exact Hf | exact Hg]. Qed.
+
+Lemma forallb_Forall {A} (f : A -> bool) l : forallb f l = true -> Forall (fun x => f x = true) l.
+Proof. intros H. apply Forall_forall. intros x Hx. rewrite forallb_forall in H. auto. Qed.
+
+Theorem lr_update_scales_ok st stds mean vals vecs mu :
+  lr_gate stds mean vals vecs = true ->
+  let st' := lr_update st stds mean vals vecs mu in
+  Forall finpos (lr_stds st') /\ Forall finpos (lr_inv st') /\
+  match lr_inner st' with
+  | Some (vs, vsi, _) => Forall finpos vs /\ Forall finpos vsi
+  | None => False
+  end.
+Proof.
+  intros Hg. unfold lr_update. rewrite Hg. simpl.
+  apply lr_gate_true_parts in Hg. destruct Hg as (H1 & _ & H3 & _ & H5 & H6).
+  assert (Fs : Forall (fun s => finpos s /\ Fp.is_finite (frecip s) = true) stds).
+  { apply Forall_forall. intros s Hs. unfold all_finite in H1. rewrite forallb_forall in H1, H5.
+    specialize (H1 s Hs). specialize (H5 s Hs). unfold lr_scale_ok in H5.
+    apply andb_true_iff in H5. destruct H5 as [G F]. split; [split; assumption | exact F]. }
+  assert (Fv : Forall finpos vals).
+  { apply Forall_forall. intros v Hv. unfold all_finite in H3. rewrite forallb_forall in H3, H6.
+    split; [exact (H3 v Hv) | exact (H6 v Hv)]. }
+  repeat split.
+  - eapply Forall_impl; [|exact Fs]. intros a [Ha _]. exact Ha.
+  - apply Forall_forall. intros y Hy. apply in_map_iff in Hy. destruct Hy as [s [<- Hs]].
+    rewrite Forall_forall in Fs. destruct (Fs s Hs) as [Ha Hb]. apply frecip_finpos; assumption.
+  - apply Forall_forall. intros y Hy. apply in_map_iff in Hy. destruct Hy as [v [<- Hv]].
+    rewrite Forall_forall in Fv. apply fsqrt_finpos, Fv, Hv.
+  - apply Forall_forall. intros y Hy. apply in_map_iff in Hy. destruct Hy as [v [<- Hv]].
+    rewrite Forall_forall in Fv. apply good_finpos, frecip_good, fsqrt_finpos_good, Fv, Hv.
+Qed.
+
+(* whatever is handed to update: the scales in use afterwards are finite and strictly positive
+   provided they were before *)
+Definition lrm_ok (st : lrm) : Prop :=
+  Forall finpos (lr_stds st) /\ Forall finpos (lr_inv st) /\
+  match lr_inner st with
+  | Some (vs, vsi, _) => Forall finpos vs /\ Forall finpos vsi
+  | None => True
+  end.
+
+Theorem lr_update_preserves_ok st stds mean vals vecs mu :
+  lrm_ok st -> lrm_ok (lr_update st stds mean vals vecs mu).
+Proof.
+  intros Hok. destruct (lr_gate stds mean vals vecs) eqn:Hg.
+  - pose proof (lr_update_scales_ok st stds mean vals vecs mu Hg) as H. simpl in H.
+    unfold lrm_ok. destruct H as (A & B & C). repeat split; try assumption.
+    destruct (lr_inner (lr_update st stds mean vals vecs mu)) as [[[vs vsi] m]|]; [exact C|exact I].
+  - rewrite (lr_update_rejected _ _ _ _ _ _ Hg). exact Hok.
+Qed.
+
+Theorem lr_adapt_preserves_ok st count upd : lrm_ok st -> lrm_ok (lr_adapt st count upd).
+Proof.
+  intros Hok. unfold lr_adapt. destruct (count <? 3)%N; [exact Hok|].
+  destruct upd as [[[[[stds mean] vals] vecs] mu]|]; [|exact Hok].
+  apply lr_update_preserves_ok, Hok.
+Qed.
+
+(* every history of windows: induction over the sequence of adapt calls *)
+Theorem lr_history_ok st (h : list (N * option (list f64 * list f64 * list f64 * list (list f64) * list f64))) :
+  lrm_ok st -> lrm_ok (fold_left (fun s cu => lr_adapt s (fst cu) (snd cu)) h st).
+Proof.
+  revert st. induction h as [|[c u] h IH]; simpl; intros st Hok; [exact Hok|].
+  apply IH, lr_adapt_preserves_ok, Hok.
 Qed.
